@@ -423,15 +423,14 @@ func (dec *Decoder) next(n int) (data []byte, safe bool) {
 		dec.head += n
 		return data, false
 	}
-	if dec.reader == nil {
-		// the whole input is in memory and it is shorter than n: hand out what is left
-		// (loadMore reports io.EOF) instead of allocating n bytes on the word of the wire
-		data = dec.buf[dec.head:dec.tail]
-		dec.loadMore()
-		return data, false
-	}
 	safe = true
-	data = make([]byte, remain, n)
+	// n comes from the wire: reserve at most one more buffer beyond what is at hand; append grows
+	// the copy as the bytes really arrive (the same for a reader and for an in-memory input)
+	capacity := n
+	if limit := remain + len(dec.buf); capacity > limit {
+		capacity = limit
+	}
+	data = make([]byte, remain, capacity)
 	copy(data, dec.buf[dec.head:dec.tail])
 	n -= remain
 	for {
